@@ -767,7 +767,37 @@ pub fn stress_shapes(thorough: bool) -> Vec<(String, Vec<u8>)> {
         b.extend(frame_bytes(&[chunk(tileset_chunk(&ts, 9, &mut None)), simple_layer(0, LayerKind::Tilemap { tileset: 0 }, 1), chunk(cel_chunk(&cel, Some(9), &mut None))], 1));
         v.push(("bomb-tilemap-declared-small".into(), b));
     }
-    // wide tilemap: tile_x * tile_width beyond i32 (work guard normally excludes rendering)
+    // a well-formed file: one large, highly compressible cel and many frames linking to it
+    // (any per-link copy of the pixel data multiplies memory)
+    for (side, nlinks) in [(1024u16, 63usize), (700, 400)] {
+        let px = vec![0u8; side as usize * side as usize * 4];
+        let mut b = header_bytes((nlinks + 1) as u16, 8, 8, 32);
+        b.extend(frame_bytes(&[simple_layer(0, LayerKind::Image, 1), image_cel(0, side, side, px, Some(9))], 1));
+        let link = chunk(cel_chunk(&Cel { layer: 0, x: 0, y: 0, opacity: 255, content: CelContent::Link { frame: 0 }, user_data: None }, None, &mut None));
+        for _ in 0..nlinks {
+            b.extend(frame_bytes(&[link.clone()], 1));
+        }
+        v.push((format!("big-cel-{}-with-{}-links", side, nlinks), b));
+    }
+    {
+        // one tileset, many frames each with a (compressible) tilemap cel
+        let ts = Tileset { id: 0, flags: 2, count: 2, tw: 256, th: 256, base_index: 1, name: String::new(), ext: (0, 0), pixels: vec![0; 2 * 256 * 256 * 4] };
+        let nf = 200usize;
+        let mut b = header_bytes(nf as u16, 8, 8, 32);
+        let tiles = vec![1u32; 64 * 64];
+        let cel = Cel { layer: 0, x: 0, y: 0, opacity: 255, content: CelContent::Tilemap { w: 64, h: 64, bits: 32, masks: [0x1fffffff, 0x20000000, 0x40000000, 0x80000000], tiles }, user_data: None };
+        let celc = chunk(cel_chunk(&cel, Some(9), &mut None));
+        for f in 0..nf {
+            let mut chunks = vec![];
+            if f == 0 {
+                chunks.push(chunk(tileset_chunk(&ts, 9, &mut None)));
+                chunks.push(simple_layer(0, LayerKind::Tilemap { tileset: 0 }, 1));
+            }
+            chunks.push(celc.clone());
+            b.extend(frame_bytes(&chunks, 1));
+        }
+        v.push(("tileset-with-200-tilemap-frames".into(), b));
+    }
     v
 }
 
